@@ -110,30 +110,40 @@ def run_pool(ctx):
     }
     dom = ctx.domain(
         "audited-task-pool",
-        bound=f"{len(pool)} tasks x audit flags (PROV, ALL) x debug worker, FileMessenger into a temp directory",
+        bound=f"{len(pool)} tasks x audit flags (PROV, ALL) x debug worker, and the multi-job tasks also under the process-pool worker (cf, n_procs=2: every job writes its records from another process); FileMessenger into ONE temp message directory shared by all jobs of the submission",
         rule="messages parsed from the *.jsonld files; start record = has startedAtTime and @type job; end record = has endedAtTime and no wasEndedBy; non-trivial: all",
         exhaustive=True,
     )
-    for flag_name in ("PROV", "ALL"):
-        for name, (mk, n_jobs, _) in pool.items():
+    runs = [(flag_name, name, "debug") for flag_name in ("PROV", "ALL") for name in pool]
+    runs += [(flag_name, name, "cf") for flag_name in ("PROV", "ALL") for name in ("wf-two-nodes-ok", "wf-first-node-raises", "split-python")]
+    for flag_name, name, worker in runs:
+        if True:
+            mk, n_jobs, _ = pool[name]
             tmp = Path(tempfile.mkdtemp(prefix="vf_c36_"))
             cwd = os.getcwd()
             try:
                 mdir = tmp / "messages"
                 err = None
                 try:
-                    mk()(cache_root=tmp / "cache", audit_flags=getattr(AuditFlag, flag_name), messengers=FileMessenger(), messenger_args={"message_dir": str(mdir)})
+                    mk()(cache_root=tmp / "cache", audit_flags=getattr(AuditFlag, flag_name), messengers=FileMessenger(), messenger_args={"message_dir": str(mdir)}, worker=worker, **({"n_procs": 2} if worker == "cf" else {}))
                 except Exception as e:  # noqa
                     err = e
-                msgs = [json.load(open(f)) for f in sorted(mdir.glob("*.jsonld"))] if mdir.exists() else []
+                msgs, unreadable = [], []
+                for f in sorted(mdir.glob("*.jsonld")) if mdir.exists() else []:
+                    try:
+                        msgs.append(json.load(open(f)))
+                    except ValueError as e:
+                        unreadable.append(f"{f.name}: {str(e)[:80]}")
                 starts = [m for m in msgs if m.get("@type") == "job" and "startedAtTime" in m]
                 ends = [m for m in msgs if "endedAtTime" in m and "wasEndedBy" not in m]
-                case = {"task": name, "flags": flag_name, "starts": [m["@id"] for m in starts], "ends": [(m["@id"], m.get("errored")) for m in ends], "raised": type(err).__name__ if err else None, "expected_jobs": n_jobs}
-                dom.case((name, flag_name), sample=case)
+                case = {"task": name, "flags": flag_name, "worker": worker, "unreadable_record_files": unreadable[:3], "starts": [m["@id"] for m in starts], "ends": [(m["@id"], m.get("errored")) for m in ends], "raised": type(err).__name__ if err else None, "expected_jobs": n_jobs}
+                dom.case((name, flag_name, worker), sample=case)
                 probs = pair_problems(starts, ends, n_jobs, failing=name in ("python-raises", "wf-first-node-raises"))
+                if unreadable:
+                    probs.append("record-file-is-not-one-json-document")
                 for p in probs:
                     klass = f"{p}:{'workflow-in-process' if name.startswith('wf') or name.startswith('split') else 'single-task'}"
-                    ctx.fail(klass, f"{p} for task {name} with audit flags {flag_name}: starts={case['starts']} ends={case['ends']}", case, domain=dom)
+                    ctx.fail(klass, f"{p} for task {name} with audit flags {flag_name} under the {worker} worker: starts={case['starts']} ends={case['ends']}", case, domain=dom)
             finally:
                 os.chdir(cwd)
                 shutil.rmtree(tmp, ignore_errors=True)
